@@ -64,6 +64,10 @@ Fixpoint u8_next_from (k : Z) (a : list Z) (lo v : Z) : option Z :=
   | [] => None
   | x :: a' => if (lo <=? k) && (x =? v) then Some k else u8_next_from (k + 1) a' lo v
   end.
+(* array('B').index(value, start): the first index >= start holding value, ValueError when there is none *)
+Definition u8_index (a : list Z) (v s : Z) : result Z :=
+  let lo := if s <? 0 then Z.max 0 (s + zlen a) else s in
+  match u8_next_from 0 a lo v with Some k => Ok k | None => Err ValueError end.
 Definition u8_next_index (a : list Z) (i v : Z) : result (option Z) :=
   let s := i + 1 in
   let lo := if s <? 0 then Z.max 0 (s + zlen a) else s in
